@@ -321,6 +321,35 @@ fn eval_vote_chain(dir: &Path, rounds: &[(u64, u8, u8)]) -> Out {
     out(OB_RESTART, true, "no surviving vote".into())
 }
 
+
+// ---------- acted-on term is durable before the reply ----------
+const OB_TERMDUR: &str = "C10.persist.term_before_reply";
+
+/// A node that answers a RequestVote with term T (granted or not) has acted on T: a restart from the WAL
+/// bytes present right after the call must come back with term >= T.  Cases cover the vote paths: better /
+/// equal / worse candidate log, and equal logs with the geometric tie-break passing or refusing
+/// (state embeddings none / same / opposite).
+fn eval_term_durable(dir: &Path, own_log: bool, rv_term: u64, rel: u8, emb: u8) -> Out {
+    let p = dir.join("td.wal");
+    let _ = std::fs::remove_file(&p);
+    let n = match node(&p) { Ok(n) => n, Err(e) => return out(OB_TERMDUR, false, format!("with_wal: {e}")) };
+    if own_log { let _ = append_entries(&n, 1, vec![one_entry(1)]); }
+    if emb > 0 { n.update_state_embedding_dense(&[1.0, 0.0, 0.0, 0.5]); }
+    let (lli, llt) = (n.last_log_index(), n.last_log_term());
+    let (ci, ct) = match rel { 0 => (lli, llt), 1 => (lli + 1, llt + 1), _ => (lli.saturating_sub(1), llt.saturating_sub(1)) };
+    let cand_emb = match emb { 0 => SparseVector::new(0), 1 => SparseVector::from_dense(&[1.0, 0.0, 0.0, 0.5]), _ => SparseVector::from_dense(&[-1.0, 0.0, 0.0, -0.5]) };
+    let before = n.current_term();
+    let rv = RequestVote { term: rv_term, candidate_id: "A".to_string(), last_log_index: ci, last_log_term: ct, state_embedding: cand_emb };
+    let resp = match n.handle_message(&"A".to_string(), &Message::RequestVote(rv)) { Some(Message::RequestVoteResponse(r)) => (r.term, r.vote_granted), _ => return out(OB_TERMDUR, false, "no response".into()) };
+    let acted = n.current_term().max(resp.0);
+    let bytes = std::fs::read(&p).unwrap_or_default();
+    drop(n);
+    let c = dir.join("tdc.wal");
+    std::fs::write(&c, &bytes).expect("copy");
+    let back = match node(&c) { Ok(n) => n.current_term(), Err(e) => return out(OB_TERMDUR, false, format!("restart fails: {e}")) };
+    out(OB_TERMDUR, back >= acted, format!("node (term {before}, log {}) answered RequestVote(term {rv_term}, log rel {rel}, emb {emb}) with {resp:?}: acted on term {acted}, restarted from the WAL with term {back}", if own_log { "[(1,1)]" } else { "[]" }))
+}
+
 // ---------- enumeration ----------
 
 fn scripts(nsyms: u8, maxlen: usize) -> Vec<Vec<u8>> {
@@ -366,6 +395,7 @@ pub fn run(tier: Tier, _seed: u64) -> Report {
     rep.declare(OB_LOG, "RaftRecoveryState::from_entries");
     rep.declare(OB_PERSIST, "RaftNode::handle_request_vote with with_wal");
     rep.declare(OB_RESTART, "RaftNode::with_wal");
+    rep.declare(OB_TERMDUR, "RaftNode::handle_request_vote with with_wal");
     let dir = crate::fw::tmpdir("c10_raftwal");
 
     for script in scripts(7, maxlen) {
@@ -434,6 +464,12 @@ pub fn run(tier: Tier, _seed: u64) -> Report {
         }
     } } }
     rep.sample(json!({"pre": 0, "term": 1, "post": 4, "cut": 60}));
+    // acted-on term durable before the reply: own log {[], [(1,1)]} x request terms 1..=4 x candidate log {equal, better, worse} x embeddings {none, same, opposite}
+    for own_log in [false, true] { for rv_term in 1..=4u64 { for rel in 0..3u8 { for emb in 0..3u8 {
+        rep.eval(rv_term > 1);
+        let x = eval_term_durable(&dir, own_log, rv_term, rel, emb);
+        record(&mut rep, vec![x], &|| json!({"term_durable": [own_log, rv_term, rel, emb]}));
+    } } } }
     if thorough {
         let opts: Vec<(u64, u8, u8)> = (1..=2u64).flat_map(|t| (0..2u8).flat_map(move |c| (0..5u8).map(move |k| (t, c, k)))).collect();
         for &a in &opts { for &b in &opts { for &c in &opts {
@@ -459,6 +495,8 @@ pub fn replay(ob: &str, case: &Value) -> Result<String, String> {
     } else if let Some(r) = case.get("wal_rounds") {
         let rounds: Vec<(u8, usize)> = r.as_array().map(|a| a.iter().map(|x| (x[0].as_u64().unwrap_or(0) as u8, x[1].as_u64().unwrap_or(0) as usize)).collect()).unwrap_or_default();
         vec![eval_wal_rounds(&dir, &rounds)]
+    } else if let Some(t) = case.get("term_durable") {
+        vec![eval_term_durable(&dir, t[0].as_bool().unwrap_or(false), t[1].as_u64().unwrap_or(1), t[2].as_u64().unwrap_or(0) as u8, t[3].as_u64().unwrap_or(0) as u8)]
     } else if let Some(r) = case.get("vote_chain") {
         let rounds: Vec<(u64, u8, u8)> = r.as_array().map(|a| a.iter().map(|x| (x[0].as_u64().unwrap_or(0), x[1].as_u64().unwrap_or(0) as u8, x[2].as_u64().unwrap_or(0) as u8)).collect()).unwrap_or_default();
         vec![eval_vote_chain(&dir, &rounds)]
